@@ -73,16 +73,20 @@ EXOTIC_CHARS = set(gtext.EXOTIC)
 # planning
 
 def plan_graphs(rng, spec, exotic):
-    n = rng.weighted([(0, 1), (1, 4), (2, 4), (3, 2), (4, 1)])
+    big = rng.sub('big').chance(0.04)
+    n = rng.weighted([(0, 1), (1, 4), (2, 4), (3, 2), (4, 1)]) if not big else 5 + rng.randrange(8)
     graphs = []
     for i in range(n):
         r = rng.sub('g', i)
-        ccfg = gcontent.ContentCfg(max_nodes=r.pick([1, 2, 3, 5]), exotic=exotic * 0.5,
+        ccfg = gcontent.ContentCfg(max_nodes=r.pick([1, 2, 3, 5]) if not big else r.pick([3, 6, 10, 14]), exotic=exotic * 0.5,
                                    p_none_target=0.03, p_inverted_attr=0.03)
         c = gcontent.gen_content(r, spec, ccfg)
         lcfg = gcontent.LayoutCfg(p_align=r.pick([0.0, 0.0, 0.3]))
         tree = gcontent.layout_tree(r.sub('layout'), c, spec, lcfg)
         meta = gtext.gen_metadata(r.sub('meta'), exotic=exotic)
+        if big and i == n // 2:
+            # a long comment line so that the text crosses the 8 KiB buffer / chunk size at a seeded offset
+            meta = meta + [['long', ('w' + str(r.randrange(10)) + ' ') * (2650 + r.randrange(120)) + 'end']]
         graphs.append({'tree': tree, 'meta': meta})
     return graphs
 
